@@ -79,6 +79,7 @@ class DocGen:
 
     def text(self):
         if self.p.get('tokens'):
+            if self.r.random() < 0.1: return self.r.choice([' ', '  ', '', ' '])      # whitespace-only / empty text nodes
             self.ntok = getattr(self, 'ntok', 0) + 1
             return f'\u00ab{self.ntok}\u00bb' + self.r.choice(['', '', ' ', 'x', '&', '<b>', ' y ', '&amp;', '&lt;b&gt;', '&#38;', 'T&T;', '>', '"q"', '&nbsp;x', 'a&'])
         pool = TEXTS_PLAIN + (TEXTS_RICH if self.p.get('rich_text') else [])
